@@ -221,6 +221,14 @@ class RiskReplay:
                     got = F.entropic_risk_measure(X2 * sc, a=a / sc)
                     self.compare("erm:scale", f"entropic_risk_measure(x*2^{kexp}, a/2^{kexp}) is not 2^{kexp} * ERM_a(x)", got,
                                  [e * sc for e in exp], rs2, 1e-11, 1e-12 * sc, {"a2": a2, "scale_exp": kexp})
+                # large exponents (a * loss in the hundreds): the entropic LOSS is mean 2^(-a2 k x), evaluated exactly with
+                # Python integers from the definition M2 of Risk.tla (TLC's 32-bit integers cannot hold these powers)
+                for kk in (40, 64):
+                    big = [float(sum(Fraction(2) ** (-a2 * kk * v) for v in r["x"]) / len(r["x"])) for r in rs2]
+                    got = nn.EntropicLoss(a)(X2 * kk)
+                    self.compare("eloss:large-exponent", f"EntropicLoss is not mean exp(-a x) when a*x reaches the hundreds (x scaled by {kk})", got, big, rs2, 1e-9, 0.0, {"a2": a2, "scale": kk})
+                    got = -F.exp_utility(X2 * kk, a=a).mean(0)
+                    self.compare("eloss:utility-large-exponent", "exp_utility is not -exp(-a x) for large exponents", got, big, rs2, 1e-9, 0.0, {"a2": a2, "scale": kk})
             el = [float(fr(r["m2"][ai])) for r in rs2]
             got = nn.EntropicLoss(a)(X2)
             self.compare("eloss:value", "EntropicLoss is not mean exp(-a x)", got, el, rs2, 100 * tol, 0.0, {"a2": a2})
